@@ -487,7 +487,8 @@ func c02(c *core.Ctx, r *core.Report) {
 				return
 			}
 			isCounterLoad := func(v ssa.Value) bool {
-				call, ok := an.Strip(v).(*ssa.Call)
+				// through a helper's parameter to the caller's argument
+				call, ok := an.Strip(an.EventFV(e, v).Resolve(nil).V).(*ssa.Call)
 				if !ok {
 					return false
 				}
